@@ -73,6 +73,9 @@ type director struct {
 	// nextFn, when set, decides the step for a request instead of the plan
 	// (ban-history scenarios); called with d.mu held.
 	nextFn func(peer int, key streamKey) Step
+	// alias, when it has an entry for the requested block, names the "other"
+	// block sent for it instead of a random bystander (lookup scenarios).
+	alias map[chainhash.Hash]*chaingen.Node
 }
 
 func (d *director) setStreams(m map[streamKey][]Step) {
@@ -124,6 +127,9 @@ func (d *director) next(peer int, key streamKey) Step {
 
 // otherBlock picks a bystander block (d.mu held).
 func (d *director) otherBlock(not *chaingen.Node) *chaingen.Node {
+	if a := d.alias[not.Hash]; a != nil {
+		return a
+	}
 	for try := 0; ; try++ {
 		n := d.trunk[d.rng.Intn(len(d.trunk))]
 		if n != not && (!d.reserved[n.Hash] || try > 2000) {
